@@ -524,7 +524,7 @@ def main():
         run.run_shards("rv.props.c15", timeout=3400)
         return run.finish(require=("sessions", "reads", "writes_acknowledged", "writes_refused", "read_backs", "rpm_elements_compared"))
     rng = run.rng("c15")
-    for i in range((24 if thorough else 12) // (run.shard[1] if thorough else 1) + 1):
+    for i in range((640 if thorough else 12) // (run.shard[1] if thorough else 1) + 1):
         run.sample({"session": i, "requests": 300 if thorough else 150})
         session(run, rng, 300 if thorough else 150)
     run.finish(require=("sessions", "reads", "writes_acknowledged", "writes_refused", "read_backs", "rpm_elements_compared"))
